@@ -22,9 +22,8 @@ def firstMinBy (key : α → Nat) : List α → Option α
     | none => some a
     | some b => if key b < key a then some b else some a
 
-/-- **the one way in which the selector case still differs from the Go rule** (finding F05-17):
-    several *fields* named `x` at the shallowest field depth and no method at that depth or above —
-    Go reports an ambiguous selector, `lookupField` takes the first of them -/
+/-- several *fields* named `x` at the shallowest field depth and no method at that depth or above:
+    an ambiguous selector in Go; up to 43e97a5 `lookupField` took the first of them (finding F05-17) -/
 def fieldTie (D : Decls) (t : Nat) (x : String) : Bool :=
   match firstMinBy (fun (h : FHit) => h.path.length) (focc D t x) with
   | none => false
@@ -40,11 +39,10 @@ def plainFree (D : Decls) : Bool :=
     | .strct _ fs _ => fs.all (fun f => f.kind != .plain)
     | .iface _ _ _ => true)
 
-/-- the domain of `select_eq_spec_partial` -/
-def selDom (D : Decls) (t : Nat) (x : String) : Bool := !fieldTie D t x
-
-def selClass (_F : Facts) (D : Decls) (t : Nat) (x : String) : Option String :=
-  if fieldTie D t x then some "ambiguous-field-accepted" else none
+/-- the selector case has no divergence class left (`select_eq_spec`); should the two rule sets
+    ever differ on an input, it gets a label that no finding lists -/
+def selClass (F : Facts) (D : Decls) (t : Nat) (x : String) : Option String :=
+  if selectY F D t x != select D t x then some "selector-resolution" else none
 
 /-! ### domains of the type-switch theorems -/
 
@@ -189,7 +187,10 @@ def classStmt (F : Facts) (D : Decls) (e : CEnv) : Stmt → Option String × CEn
      | .ifc src dyn _ _ =>
        let ifaceClause := cs.any (fun c => c.any (fun ty => tyIsIface D ty))
        if isTyped src then
-         (if !cs.all (fun c => c.all (fun ty => assertLegal D (tyMethods D src) ty)) then (some "tswitch-impossible-case", e)
+         let gg := cs.all (fun c => c.all (fun ty => assertLegal D (tyMethods D src) ty))
+         let gy := !F.tswitchCasesChecked || cs.all (fun c => c.all (fun ty => ty == .nil || assertLegalY F D src ty))
+         (if gy != gg then (some "tswitch-impossible-case", e)
+          else if !gg then (none, e)
           else if ifaceClause || cs.any (fun c => c.any (fun ty => ty == .nil)) then (some "tswitch-interface-or-nil-clause", e)
           else (none, e))
        else
